@@ -596,7 +596,7 @@ package sam
 //@   before return#7: assert [c18.error.first] len(recvd(cErr)) == 1 && err == recvd(cErr)[0]
 //@   before return#8: assert [c18.error.first] len(recvd(cErr)) == 1 && err == recvd(cErr)[0]
 //@   before return#9: assert [c18.nil.means.clean] len(recvd(cErr)) == 0 && len(recvd(cReadDone)) == 1 && len(recvd(cAlignWaitGroupDone)) == 1 && len(recvd(cTrimWaitGroupDone)) == 1 && len(recvd(cWriteDone)) == 1
-//@   ensures [c18.error.returned] implies(gErrSeen, result != nil)
+//@   ensures [local.c18.error.returned] implies(gErrSeen, result != nil)
 //@ func Variants spawns
 //@   modifies everything
 //@   after if#3: assert [c18.oneref] len(refs) == 1
@@ -631,7 +631,7 @@ package sam
 //@   before return#12: assert [c18.error.first] len(recvd(cErr)) == 1 && err == recvd(cErr)[0]
 //@   before return#13: assert [c18.error.first] len(recvd(cErr)) == 1 && err == recvd(cErr)[0]
 //@   before return#14: assert [c18.nil.means.clean] len(recvd(cErr)) == 0 && len(recvd(cReadDone)) == 1 && len(recvd(cAlignWaitGroupDone)) == 1 && len(recvd(cVariantsDone)) == 1 && len(recvd(cWriteDone)) == 1
-//@   ensures [c18.error.returned] implies(gErrSeen, result != nil)
+//@   ensures [local.c18.error.returned] implies(gErrSeen, result != nil)
 //@   # C11: the writer is started with the window, threshold and --append-snps exactly as given on the command line (the same
 //@   # values `variants` hands to the same writers), and with the reference's ID
 //@   # C11: with --reference the reference used for the pairs, the regions and the writer is the record read from that file
@@ -816,4 +816,4 @@ package sam
 //@   before return#5: assert [c18.error.first] len(recvd(cErr)) == 1 && err == recvd(cErr)[0]
 //@   before return#6: assert [c18.error.first] len(recvd(cErr)) == 1 && err == recvd(cErr)[0]
 //@   before return#7: assert [c18.nil.means.clean] len(recvd(cErr)) == 0 && len(recvd(cReadDone)) == 1 && len(recvd(cWaitGroupDone)) == 1 && len(recvd(cWriteDone)) == 1
-//@   ensures [c18.error.returned] implies(gErrSeen, result != nil)
+//@   ensures [local.c18.error.returned] implies(gErrSeen, result != nil)
